@@ -22,6 +22,10 @@ RULE = ('single registry of either flavour; histories (<=40) of register '
         'distinct by SHA-1')
 
 
+# thorough tier: coverage-guided campaigns on top of the random ones
+ATHERIS = [{'impl': 'py', 'n': 30000, 'name': 'py-atheris'},
+           {'impl': 'c', 'n': 30000, 'name': 'c-atheris'}]
+
 def configs(tier, seed):
     n = 900 if tier == 'quick' else 15000
     return [{'name': impl + '-book', 'impl': impl, 'mode': 'hyp', 'n': n}
